@@ -89,7 +89,7 @@ DIFFERENT_PARSE = {'lammps': {'type_mapping_b', 'temperature', 'time_step', 'con
                    'gromacs': {'temperature', 'constant_lattice_false', 'temperature_close'}}
 
 
-def call(spec, files, variant, cache=None):
+def call(spec, files, variant, cache=None, args_only=False):
     from gemdat.trajectory import Trajectory
 
     L = spec['loader']
@@ -121,6 +121,8 @@ def call(spec, files, variant, cache=None):
             args['atom_style'] = 'charge'
         if variant == 'coords_format_upper':
             args['coords_format'] = 'XYZ'
+        if args_only:
+            return args
         return gcall(Trajectory.from_lammps, **args, **kw, allow=(Exception,))
     if L == 'vasprun':
         args = {}
@@ -128,6 +130,8 @@ def call(spec, files, variant, cache=None):
             args['constant_lattice'] = False
         if variant == 'tolerant_xml':
             args['exception_on_bad_xml'] = False
+        if args_only:
+            return args
         return gcall(Trajectory.from_vasprun, files['xml_file'], **args, **kw, allow=(Exception,))
     args = dict(topology_file=files['topology_file'], coords_file=files['coords_file'], temperature=spec.get('temperature', 300.0))
     if variant == 'temperature':
@@ -136,6 +140,8 @@ def call(spec, files, variant, cache=None):
         args['temperature'] = args['temperature'] + 0.0004
     if variant == 'constant_lattice_false':
         args['constant_lattice'] = False
+    if args_only:
+        return args
     return gcall(Trajectory.from_gromacs, **args, **kw, allow=(Exception,))
 
 
@@ -486,6 +492,7 @@ def run_faults(case):
             n_faults += 1
         # argument variants while caches of other variants are present
         labels = [L]
+        seen_args = {repr(sorted((k_, repr(x_)) for k_, x_ in call(spec, fs.files, 'base', args_only=True).items()))}
         for v in case['variants']:
             if v not in VARIANTS[L]:
                 continue
@@ -494,12 +501,13 @@ def run_faults(case):
             gotv = fs.load(v)
             traj_equal(gotv, refv, f'{L}: load with option variant {v!r} while the cache of the base call is present')
             after = set(cache_files(fs.dir))
-            if v in DIFFERENT_PARSE[L] and not isinstance(refv, Raised) and not (after - before) and v not in case.get('_seen', []):
+            # (two variants may amount to the same option values, e.g. time step x 2 and time step + 0.0002 for a step of 0.0002: one cache file then)
+            akey = repr(sorted((k_, repr(x_)) for k_, x_ in call(spec, fs.files, v, args_only=True).items()))
+            if v in DIFFERENT_PARSE[L] and not isinstance(refv, Raised) and not (after - before) and akey not in seen_args:
                 raise Violation('different-options-different-cache-file', f'{L}: variant {v!r} parses differently but used an existing cache file {sorted(after)}')
-            case.setdefault('_seen', []).append(v)
+            seen_args.add(akey)
             traj_equal(fs.load('base'), ref, f'{L}: base call after variant {v!r}')
             labels.append('variant-' + v)
-        case.pop('_seen', None)
         return {'nontrivial': n_faults >= 1, 'labels': labels}
     finally:
         shutil.rmtree(fs.dir, ignore_errors=True)
